@@ -42,9 +42,20 @@ class Script:
         self.parked = asyncio.Event()
         self.recording = True
         self.in_iteration = False
+        self.cancel_fn = None      # how the loop is ended at 's'/'c' (default: cancel the task)
+        self.stopped = False
 
     def _outcome(self):
         return self.script[self.i] if self.i < len(self.script) else None
+
+    def _cancel(self):
+        if self.cancel_fn is None:
+            asyncio.current_task().cancel()
+        else:
+            # the owner ends the keep-alive through its own API (AP2Session.stop()); from then
+            # on the connection is closed: a loop that keeps running finds every send failing
+            self.stopped = True
+            self.cancel_fn()
 
     async def _park(self):
         self.recording = False
@@ -58,17 +69,20 @@ class Script:
             # silently skips): record it and stop instead of spinning forever
             self.events.append("runaway")
             o = None
-        if o is None:
+        if o is None and not (self.stopped and "runaway" not in self.events):
             await self._park()
         self.events.append("sleep")
         self.in_iteration = True
         if o == "s":
             self.i += 1
-            asyncio.current_task().cancel()
+            self._cancel()
         await asyncio.sleep(0)
 
     async def sender(self, _message=None):
         o = self._outcome()
+        if o is None and self.stopped and "runaway" not in self.events:
+            self.events.append("send")
+            raise RuntimeError("not connected to remote")
         if o is None:
             await self._park()
         self.events.append("send")
@@ -91,7 +105,7 @@ class Script:
                      lambda: ConnectionResetError("reset by peer"), lambda: ValueError(), lambda: TimeoutError("timed out"),
                      lambda: OSError(110, "Connection timed out")]
             raise kinds[self.i % len(kinds)]()
-        asyncio.current_task().cancel()
+        self._cancel()
         await asyncio.sleep(0)
 
     def record(self, ev):
@@ -158,7 +172,7 @@ async def run_mrp(protocol_mod, sc):
     return sc
 
 
-async def run_ap2(protocol_mod, sc, late=False, holder=None, raising=False, facade=False):
+async def run_ap2(protocol_mod, sc, late=False, holder=None, raising=False, facade=False, stop_api=False):
     """AP2Session.start_keep_alive: failure -> connection_lost, cancel -> connection_closed."""
     from pyatv.protocols.airplay import ap2_session
     from pyatv.support.state_producer import StateProducer
@@ -213,6 +227,8 @@ async def run_ap2(protocol_mod, sc, late=False, holder=None, raising=False, faca
             holder["sess"] = sess
     sess.rtsp = Rtsp()
     sess.start_keep_alive(producer)
+    if stop_api:
+        sc.cancel_fn = sess.stop
     if facade:
         producer.sess = sess
     if late:
@@ -418,6 +434,8 @@ def execute(protocol_mod, cases):
                 coro = as_task(lambda pm, x: run_ap2(pm, x, raising=True), sc, protocol_mod, sc)
             elif variant == "ap2facade":
                 coro = as_task(lambda pm, x: run_ap2(pm, x, facade=True), sc, protocol_mod, sc)
+            elif variant == "ap2stop":
+                coro = as_task(lambda pm, x: run_ap2(pm, x, stop_api=True), sc, protocol_mod, sc)
             elif variant in ("mrp", "mrpdebug"):
                 coro = as_task(run_mrp, sc, protocol_mod, sc)
             elif variant == "ap2late":
@@ -502,6 +520,8 @@ def run(ctx, only=None):
         cases.append(("plaindebug", default_r, s))
         cases.append(("ap2raise", default_r, s))
         cases.append(("ap2facade", default_r, s))
+        if "s" in s or "c" in s:
+            cases.append(("ap2stop", default_r, s))   # ended through AP2Session.stop()
         cases.append(("ap2debug", default_r, s))
         cases.append(("mrpdebug", default_r, s))
     # two loops alive at once with the same name; the same AP2Session used twice
